@@ -85,7 +85,7 @@ var clauseKinds = map[string]bool{
 	"loop": true, "lemma": true, "ghost": true, "panics-when": true, "search-pred": true,
 	"replay": true, "replay-reader": true, "returns": true, "callsite": true, "search": true, "reveal": true, "frame-only": true, "trusted": true, "assume": true, "unroll": true, "inline": true,
 	"reads": true, "pure": true, "let": true, "assert": true, "nosafety": true,
-	"crash-invariant": true, "frame": true, "closure": true, "bound": true, "final": true, "loop-candidates": true,
+	"crash-invariant": true, "frame": true, "closure": true, "bound": true, "final": true, "loop-candidates": true, "dynamic": true,
 }
 
 var tagRe = regexp.MustCompile(`^\[([A-Z0-9, ]+)\]\s*`)
@@ -267,6 +267,15 @@ func parseContractFile(db *ContractDB, path string, defaultPkg string) error {
 			} else {
 				return fmt.Errorf("%s:%d: callsite <callee>: <expr>", path, ln)
 			}
+		case "dynamic":
+			// dynamic modifies <items> | dynamic ensures <expr>: ASSUMED effect of calls through function values made by
+			// this function (over its own variables)
+			fs := strings.Fields(rest)
+			if len(fs) < 2 || (fs[0] != "modifies" && fs[0] != "ensures") {
+				return fmt.Errorf("%s:%d: dynamic modifies|ensures ...", path, ln)
+			}
+			cl.Kind = "dyn-" + fs[0]
+			cl.Text = strings.TrimSpace(rest[len(fs[0]):])
 		case "lemma", "assert", "let":
 			// lemma name: text
 			if i := strings.Index(rest, ":"); i >= 0 && word != "let" {
